@@ -143,6 +143,21 @@ EXTRA2 = {
  "C11": ("; Cli.tla (cmd/php-parser as a concurrent system: walker, N parser workers, printer goroutine, two channels, WaitGroup; TLC: WgCounts, Conservation, OnceEach, PrintsOwn, Ownership, ExitComplete, NoSendOnClosed, termination under fairness) bound both ways: simulated behaviours forced on the real binary through schedule gates, free-running traced runs linearised by TLC against CliTrace.tla",
          " Rounds 3-4 add Cli.tla / CliTrace.tla: one action per blocking operation of main.go; every per-file object (source buffer, root node, error slice) is owned by one file from its creation to the file's print. TLC checks the invariants and termination exhaustively for small (files, workers, capacity) and shows that two named deviations (recycled source buffers, per-worker error slice) violate Ownership/PrintsOwn. spec -> impl: simulated behaviours are forced on the real binary (hook gates in cmd/php-parser, tag verif), the recorded actions must be the schedule and every file's outputs those of the library alone. impl -> spec: free-running traced runs (GOMAXPROCS 1-4) record per goroutine its action sequence with [begin, end] log intervals and the addresses of the per-file objects; TLC decides whether some interleaving that respects the recorded real-time order is a behaviour of Cli.tla; corrupted copies of a run (results swapped, live buffer reused, file printed twice, wait returning early) must be rejected (binding self-test, else exit 2)."),
 }
+EXTRA2.update({
+ "C07": ("; LRValues.tla (goyacc's loop with its value stack on concrete LALR tables of the grammars' recovery shape, every token string up to the bound: NoInvention, PrefixKept, Reported, CleanIsWhole, Terminates; deviations stale-empty / stale-error violate NoInvention) + the obligation it rests on checked on the action code of both real parsers",
+         " Round 4 adds LRValues.tla: the driver of LRDriver.tla with goyacc's value stack (a slice that is never cleared; $$ pre-loaded with the slot above the new top; the error token carries yyVAL) on the tables of a mini grammar with a top-level and an inner statement list, each with an `error` statement (tables transcribed from goyacc's y.output by tools/gen_lrmini.py). TLC runs every token string of <= 6 (thorough 8) tokens: the leaves of the top-level list are input tokens, each once, in order; the list only grows by appending; no recovery without a report; a silent parse returns everything; every parse ends. With the assignment of $$ dropped from an empty or error production the model violates NoInvention; vf/yaccobl.py therefore checks, for php5 and php7, that every production with an empty right-hand side or `error` alone, whose value has a type and is read by some action, assigns yyVAL in its `case N:` (generated parser) and in the .y source (regenerated with goyacc from the module cache)."),
+ "C05": ("; Position.tla (the twelve span combinators as a case analysis over argument shapes; Covers, LinesOfOffsets, MinusOneRule) with every case executed on the real internal/position.Builder",
+         " Round 4 adds Position.tla: TLC enumerates every combinator x argument shape (token; nil / position-less / positioned node; nil / empty / 1-3 item list) over offsets 0..2 (thorough 0..3), checks the span properties on the definitions and every case runs on the real Builder: the four numbers, the result is a fresh object, no argument changed."),
+ "C12": ("; SyntaxGen self-nesting mode (every operator nested in itself in every operand position, exhaustive); Walk.tla derived prescriptions Again / Shared", ""),
+ "C13": ("; wide history on the whole shared pool (long-list, self-nesting, long-token programs); Pipeline.tla Fault action (observations whose writer fails part-way)", ""),
+ "C14": ("; matrix E (imports between references, NsResolver.tla Mixed), matrix F (kind words inside names)", ""),
+ "C15": ("; Walk.tla derived prescriptions Again (the same printer object used again) / Shared (one node object in every child slot)", ""),
+ "C16": ("; Walk.tla derived prescriptions Again / Shared on the real dumper", ""),
+ "C01": ("; Lexer.tla index sub-mode with all its atoms and LocalMax (every sequence of three index atoms); BOM cases", ""),
+ "C02": ("; SyntaxGen long-list mode; files of 80-300 KiB in the tool's directory", ""),
+ "C03": ("; foreign node kinds in a returned tree are violations", ""),
+ "C08": ("; heredoc/labelinside", ""),
+})
 for k, (t1, t2) in EXTRA2.items():
     CLAIMED[k]["technique"] += t1
     CLAIMED[k]["text"] += t2
